@@ -711,7 +711,19 @@ fn execute_c(case: &Value) -> RunResult {
         });
     } else {
         // verdict 1: observed == algebra
+        // a second declaration that brings a name the first one bound to something else: an
+        // error by the report, so an implementation may refuse it
+        let second_conflicts = match (&second, declaration_bindings(&decl, &libs)) {
+            (Some(d2), Some(b1)) => declaration_bindings(d2, &libs)
+                .map(|b2| b2.iter().any(|(k, o)| b1.get(k).map(|o1| o1 != o).unwrap_or(false)))
+                .unwrap_or(false),
+            _ => false,
+        };
         match &first {
+            Err(e) if second_conflicts && e.starts_with("second import failed") => {
+                res.discarded = Some("the second declaration rebinds an imported name to another binding and the implementation refuses it (as the report allows)".into());
+                res.log.push(format!("not judged: {}", e));
+            }
             Err(e) if case["lenient_ids"].as_bool().unwrap_or(false) && !e.starts_with("panic/") => {
                 res.discarded = Some("the declaration names an identifier its set does not contain and the implementation refuses it (as the report allows)".into());
                 res.log.push(format!("not judged: {}", e));
